@@ -3,6 +3,7 @@
 package c14
 
 import (
+	"bytes"
 	"fmt"
 	"reflect"
 	"time"
@@ -251,9 +252,37 @@ func run(w *ev.W) {
 				vals = append(fam, vals...)
 			}
 		}
-		if len(vals) > 1500 {
-			// all pairs of the first 1500 values in enumeration order (smallest first)
-			vals = vals[:1500]
+		// long binaries that agree on a long prefix (a lookup key derived from a prefix or a
+		// hash of part of the content would identify them): as scalars, set elements, map keys
+		// and values, list elements
+		{
+			mk := func(n, diff int) tbin.Value {
+				b := bytes.Repeat([]byte("x"), n)
+				if diff >= 0 {
+					b[diff] = 'y'
+				}
+				return tbin.Value{T: tbin.Binary, B: b}
+			}
+			longs := []tbin.Value{mk(70, -1), mk(70, 69), mk(70, 64), mk(70, 0), mk(64, -1), mk(64, 63), mk(65, -1), mk(65, 64), mk(300, -1), mk(300, 299), mk(300, 150)}
+			var fam []tbin.Value
+			fam = append(fam, longs...)
+			i32 := func(x int64) tbin.Value { return tbin.Value{T: tbin.I32, I: x} }
+			for i, a := range longs {
+				fam = append(fam, tbin.Value{T: tbin.Set, VT: tbin.Binary, Items: []tbin.Value{a}}, tbin.Value{T: tbin.List, VT: tbin.Binary, Items: []tbin.Value{a}},
+					tbin.Value{T: tbin.Map, KT: tbin.Binary, VT: tbin.I32, Items: []tbin.Value{a, i32(1)}}, tbin.Value{T: tbin.Map, KT: tbin.I32, VT: tbin.Binary, Items: []tbin.Value{i32(1), a}})
+				for j, b := range longs {
+					if i < j && len(a.B) == len(b.B) {
+						fam = append(fam, tbin.Value{T: tbin.Set, VT: tbin.Binary, Items: []tbin.Value{a, b}}, tbin.Value{T: tbin.Set, VT: tbin.Binary, Items: []tbin.Value{b, a}},
+							tbin.Value{T: tbin.Map, KT: tbin.Binary, VT: tbin.I32, Items: []tbin.Value{a, i32(1), b, i32(2)}}, tbin.Value{T: tbin.Map, KT: tbin.Binary, VT: tbin.I32, Items: []tbin.Value{b, i32(2), a, i32(1)}},
+							tbin.Value{T: tbin.Map, KT: tbin.Binary, VT: tbin.I32, Items: []tbin.Value{a, i32(2), b, i32(1)}})
+					}
+				}
+			}
+			vals = append(fam, vals...)
+		}
+		if len(vals) > 2000 {
+			// all pairs of the first 2000 values in enumeration order (smallest first)
+			vals = vals[:2000]
 		}
 		for i, a := range vals {
 			wa := wirex.ToWire(a)
